@@ -60,7 +60,13 @@ type Parser struct {
 	Prefixes  []string
 	Suffixes  []string
 	patterns  map[string]*regexp.Regexp
+	// depth counts the include files between this parser and the one of the file the user named
+	depth int
 }
+
+// maxIncludeDepth bounds the nesting of include files. Without a bound a file that (directly or through
+// other files) includes itself is parsed again and again until the process runs out of file descriptors or memory.
+const maxIncludeDepth = 100
 
 // ParsedLine will store the results of parsing the line. `parsedType` will discriminate how you read the results:
 // if the type is `include`, then the result map will store the file name in the "include" key. The definition type
@@ -295,7 +301,11 @@ func parseFile(rootParser *Parser, filename string, definitions map[string]strin
 	if err != nil {
 		logger.Fatal().Msgf("cannot open file for parsing: %v", err.Error())
 	}
+	if rootParser.depth >= maxIncludeDepth {
+		logger.Fatal().Msgf("include files are nested more than %d levels deep, does %s include itself?", maxIncludeDepth, filePath)
+	}
 	newP := NewParser(rootParser.ctx, bufio.NewReader(readFile))
+	newP.depth = rootParser.depth + 1
 	if definitions != nil {
 		newP.variables = definitions
 	}
